@@ -13,6 +13,7 @@ let opt_str f = if f = "~" then None else Some (str_of_field f)
 let addr_diverged = ref false
 
 let size_unseen = ref false
+let plain_refused = ref false
 let parse_mail_table pip t =
   List.map (fun e ->
     match String.split_on_char ':' e with
@@ -27,6 +28,8 @@ let parse_mail_table pip t =
         (* C06: wherever the implementation's parser accepts the command, it must have seen the declared SIZE
            (read without the patterns: Model/SmtpMailParse.v declared_size_spec) *)
         if not (size_seen_ok (str_of_field arg) impl) then size_unseen := true;
+        (* C05 / C06: a MAIL argument of the plainest shape (read without the patterns) is not refused for its syntax *)
+        if not (plain_mail_ok (str_of_field arg) impl) then plain_refused := true;
         (match mail_facts_of pip (str_of_field arg) with
          | Some f -> if f <> impl then addr_diverged := true; (str_of_field arg, f)
          | None -> addr_diverged := true; (str_of_field arg, impl))
@@ -179,6 +182,7 @@ let handle_smtp (kind : string) (ins : string list) (outs : string list) : bool 
              let mode = match naming with "full" -> Full | "domain" -> Domain | _ -> Local in
              addr_diverged := false;
              size_unseen := false;
+             plain_refused := false;
              let rcpt_tab = parse_rcpt_table pip mode rt in
              (* smtpallow: an extension allows every recipient *)
              let rh = if kind = "smtpallow"
@@ -302,6 +306,10 @@ let handle_smtp (kind : string) (ins : string list) (outs : string list) : bool 
                  | _ -> ()) dlg) streams;
              if status <> "ok" then add "C03:session-error";
              if !size_unseen then add "C06:declared-SIZE-not-seen-by-the-MAIL-parser";
+             if !plain_refused then begin
+               add "C05:plain-MAIL-command-refused-for-its-syntax";
+               add "C06:plain-MAIL-command-refused-for-its-syntax"
+             end;
              let norm d = if par then sort_within d else d in
              let show_store = if kind = "asm" || kind = "asmtls" || kind = "asmr" then show_store_asm else show_store in
              let store_ok =
